@@ -24,6 +24,8 @@ def cases(tier, seed):
             if nb == 2 and all(len(s) == 1 for r, _ in bl for s in r) and {c for r, _ in bl for s in r for c in s} == set(cands):
                 cs.append(("RD2", cands, bl))
                 cs.append(("BRD2", cands, bl))
+                if all(len(r) == 3 for r, _ in bl):
+                    cs.append(("RD3", cands, bl))  # every later seat is drawn from the profile the previous rounds left
     cs.append(("tiebreak", None, None))
     if tier == "thorough":
         rng = random.Random(seed)
@@ -94,14 +96,38 @@ def check_case(case):
             viol("tiebreak_set:not-a-uniform-permutation-request", f"random.sample calls {rec}")
         if not oracle.is_linearisation(res, s):
             viol("tiebreak_set:result", f"{res}")
+        # the fallback after a tally that separates nobody / only some: the candidates left tied follow the permutation drawn by
+        # random.sample (every scripted draw must come out as drawn: uniform given the primitive's law)
+        import io
+        import contextlib
+        A_, B_, C_ = frozenset("A"), frozenset("B"), frozenset("C")
+        sym = gen.mk_profile(["A", "B", "C"], [((A_, B_, C_), F(1)), ((B_, C_, A_), F(1)), ((C_, A_, B_), F(1))])  # all tallies equal
+        part = gen.mk_profile(["A", "B", "C"], [((A_,), F(2)), ((B_, C_), F(1)), ((C_, B_), F(1))])  # A ahead, B = C on both tallies
+        for prof, pbl in ((sym, [((A_, B_, C_), F(1)), ((B_, C_, A_), F(1)), ((C_, A_, B_), F(1))]), (part, [((A_,), F(2)), ((B_, C_), F(1)), ((C_, B_), F(1))])):
+            for tbk in ("borda", "first_place"):
+                Wp = oracle.W_of(pbl)
+                scp = oracle.borda(["A", "B", "C"], Wp) if tbk == "borda" else oracle.fpv(["A", "B", "C"], Wp)
+                for script in itertools.permutations("ABC"):
+                    try:
+                        U.random.sample = lambda pop, k, _s=script: [c for c in _s if c in set(pop)][:k]
+                        with contextlib.redirect_stdout(io.StringIO()):
+                            res = U.tiebreak_set(s, prof, tbk)
+                    finally:
+                        U.random.sample = rs
+                    out["evals"] += 1
+                    exp = sorted("ABC", key=lambda c: (-scp[c], script.index(c)))
+                    got = [next(iter(g)) for g in res] if all(len(g) == 1 for g in res) else None
+                    if got != exp:
+                        viol("tiebreak_set:fallback-not-the-random-draw", f"{tbk} tiebreak (tallies {({c: str(v) for c, v in scp.items()})}), scripted draw {script}: got {res}, expected {exp}")
+                        return out
         return out
     Wd = oracle.W_of(bl)
     f = oracle.fpv(cands, Wd)
     N = oracle.total(Wd)
     out["nontrivial"] = sum(1 for v in f.values() if v > 0) >= 2
     prof = gen.mk_profile(cands, bl)
-    seats = 2 if kind.endswith("2") else 1
-    kind = kind.rstrip("2")
+    seats = int(kind[-1]) if kind[-1] in "23" else 1
+    kind = kind.rstrip("23")
     mod = RDm if kind == "RD" else BRDm
     cls = RandomDictator if kind == "RD" else BoostedRandomDictator
 
@@ -156,8 +182,8 @@ def check_case(case):
             if kind == "BRD":
                 mod.np.random.choice = saved[3]
         el = [str(c) for g in e.get_elected() for c in g]
-        if seats == 2:
-            return tuple(el[:2]) if len(el) >= 2 else None
+        if seats >= 2:
+            return tuple(el[:seats]) if len(el) >= seats else None
         return el[0] if el else None
     calls = []
     nsteps = [0]
@@ -167,22 +193,26 @@ def check_case(case):
         viol(f"{kind}:{type(ex).__name__}", repr(ex))
         return out
     out["evals"] += len(law)
-    if seats == 2:
+    if seats >= 2:
         exp2 = {}
-        l1 = first_seat_law(cands, Wd)
-        for a, pa in l1.items():
-            if pa == 0:
-                continue
-            rest = [c for c in cands if c != a]
-            l2 = first_seat_law(rest, oracle.scrub_W(Wd, {a}))
-            if l2 is None:
-                return out  # ballots exhausted before the second seat: C01's known finding
-            for b, pb in l2.items():
-                exp2[(a, b)] = exp2.get((a, b), F(0)) + pa * pb
+
+        def extend(prefix, p, cs_, Wd_):
+            if len(prefix) == seats:
+                exp2[prefix] = exp2.get(prefix, F(0)) + p
+                return True
+            law_ = first_seat_law(cs_, Wd_)
+            if law_ is None:
+                return False  # ballots exhausted before the next seat: C01's known finding
+            for a, pa in law_.items():
+                if pa != 0 and not extend(prefix + (a,), p * pa, [c for c in cs_ if c != a], oracle.scrub_W(Wd_, {a})):
+                    return False
+            return True
+        if not extend((), F(1), list(cands), Wd):
+            return out
         tol2 = F(1, 10 ** 6) if kind == "BRD" else F(0)
         keys = set(exp2) | {k for k in law if k is not None}
         if law.get(None, 0) or any(abs(law.get(k, F(0)) - exp2.get(k, F(0))) > tol2 for k in keys):
-            viol(f"{kind}:two-seat-law", f"exact law of (seat 1, seat 2) {({str(k): str(v) for k, v in law.items()})} != closed form {({str(k): str(v) for k, v in exp2.items() if v})}")
+            viol(f"{kind}:{seats}-seat-law", f"exact law of the first {seats} seats {({str(k): str(v) for k, v in law.items()})} != closed form {({str(k): str(v) for k, v in exp2.items() if v})}")
         return out
     share = {c: f[c] / N for c in cands}
     if kind == "RD":
